@@ -144,14 +144,25 @@ def canon(x, depth=0):
     return 'r:' + repr(x)
 
 
-# Attributes that are wire padding by the library's own definition (pack() zeroes them on purpose); the
-# property's law starts from the first re-serialisation precisely because padding is not preserved.
+# Attributes that expose reserved wire bytes (MessageHeader.reserved: two bytes after the sync, not covered by the CRC,
+# always transmitted as 0).  They are padding: the parsed value need not survive the round trip (the law starts from the
+# first re-serialisation precisely because padding is not preserved) - BUT the observables must stay consistent: after
+# pack() the object's padding attribute must equal what its own serialisation parses back to (law
+# padding-attribute-inconsistent), and pack() may change it only to that value.  Inputs with non-zero reserved bytes
+# are generated for every class (byte mutations of every padding area) and counted in evidence.
 PADDING_ATTRS = {'MessageHeader': {'reserved'}}
 
 
 def fields(o):
     skip = PADDING_ATTRS.get(type(o).__name__, ())
     return {k: canon(v) for k, v in vars(o).items() if not k.startswith('_') and k not in skip}
+
+
+def padding_fields(o):
+    """the padding attributes (reserved wire bytes the class exposes): their parsed value need not survive the round
+    trip, but what the object says after pack() must be what its serialisation parses back to"""
+    keep = PADDING_ATTRS.get(type(o).__name__, ())
+    return {k: canon(v) for k, v in vars(o).items() if k in keep}
 
 
 def first_diff(a, b, path=''):
@@ -300,8 +311,13 @@ def evaluate(key, cls, b, offsets=OFFSETS_QUICK, want_record=False):
     res['parse'] = 'ok'
     res['n'] = n
     v = fields(o)
+    pad0 = padding_fields(o)
+    pad2 = None
     V = res['viol']
     rec = {'n': n, 'fields': v}
+    if pad0:
+        rec['padding_attributes'] = pad0
+        res['nonzero_padding'] = any(x not in (0, None) for x in pad0.values())
     # -- pack --------------------------------------------------------------------------------
     try:
         b1 = do_pack(o)
@@ -340,6 +356,7 @@ def evaluate(key, cls, b, offsets=OFFSETS_QUICK, want_record=False):
         try:
             o2, n2 = do_unpack(cls, b1, 0)
             v2 = fields(o2)
+            pad2 = padding_fields(o2)
             rec['reparse_n'] = int(n2)
             d = first_diff(v, v2)
             if d:
@@ -412,6 +429,13 @@ def evaluate(key, cls, b, offsets=OFFSETS_QUICK, want_record=False):
                 V.append(('pack-into-raises', exc_name(e), 'pack(buffer, %d) raises %s' % (off, exc_name(e))))
     # -- pack()/pack(buffer, offset) must leave the object as it was ------------------------------------------
     try:
+        pad_after = padding_fields(o)
+        if pad2 is not None and pad_after != pad2:
+            dpad = first_diff(pad_after, pad2)
+            V.append(('padding-attribute-inconsistent', (dpad or '.').lstrip('.'), 'after pack() the object says %s = %s but its own serialisation parses back with %s'
+                      % ((dpad or '.').lstrip('.'), _at(pad_after, dpad or ''), _at(pad2, dpad or ''))))
+        elif pad2 is not None and pad_after != pad0 and pad_after != pad2:
+            V.append(('pack-mutates-object', 'padding', 'pack() changed a padding attribute to a value that is not what it wrote'))
         v_after = fields(o)
         d = first_diff(v, v_after)
         if d:
@@ -434,6 +458,36 @@ def evaluate(key, cls, b, offsets=OFFSETS_QUICK, want_record=False):
             V.append(('objects-share-mutable-state', shared[0][0].split('[')[0].lstrip('.'), 'two objects parsed from the same bytes share the mutable sub-object %s (%s)' % shared[0]))
     except Exception as e:
         pass
+    # -- a header serialised together with a payload, library-allocated and into a sentinel-filled caller buffer ------
+    try:
+        import inspect
+        has_payload = 'payload' in inspect.signature(cls.pack).parameters
+    except Exception:
+        has_payload = False
+    if has_payload:
+        from zlib import crc32 as _crc32
+        for off in offsets:
+            p = bytes((off * 31 + i * 7 + 1) & 0xFF for i in range((off * 5 + 3) % 23))
+            try:
+                oa, _n = do_unpack(cls, b, 0)
+                ref = oa.pack(payload=p)
+                ref = bytes(ref)
+                hs = len(ref) - len(p)
+                ob2, _n = do_unpack(cls, ref, 0)
+                if ref[hs:] != p or hs != n:
+                    V.append(('pack-with-payload-bytes', '', 'pack(payload=p) is not header followed by p (%d bytes for a %d-byte header and %d-byte payload)' % (len(ref), n, len(p))))
+                elif getattr(ob2, 'payload_size_bytes', len(p)) != len(p) or getattr(ob2, 'crc', None) != _crc32(ref[8:]):
+                    V.append(('pack-with-payload-crc', '', 'pack(payload=p): the serialised header does not carry the payload size / the CRC-32 of everything after the CRC field'))
+                oc, _n = do_unpack(cls, b, 0)
+                cbuf = bytearray((0xC3 + 5 * i) & 0xFF for i in range(off + len(ref) + 6))
+                orig = bytes(cbuf)
+                oc.pack(cbuf, off, payload=p, return_buffer=False)
+                if bytes(cbuf[off:off + len(ref)]) != ref:
+                    V.append(('pack-into-payload-bytes', '', 'pack(buffer, %d, payload=p) wrote bytes that differ from pack(payload=p) at relative byte %d' % (off, _firstbyte(bytes(cbuf[off:off + len(ref)]), ref))))
+                if bytes(cbuf[:off]) != orig[:off] or bytes(cbuf[off + len(ref):]) != orig[off + len(ref):] or len(cbuf) != len(orig):
+                    V.append(('pack-into-payload-outside', '', 'pack(buffer, %d, payload=p) modified the caller buffer outside [%d, %d)' % (off, off, off + len(ref))))
+            except Exception as e:
+                V.append(('pack-with-payload-raises', exc_name(e), 'pack(..., payload=p) at offset %d raises %s: %s' % (off, exc_name(e), str(e)[:120])))
     # classify a first-step size mismatch: the input was not in canonical form (over-long declared length,
     # NUL-padded string ...) but its serialisation is shorter and is a fixed point of unpack/pack
     if b1 is not None and len(b1) < n and not any(l in ('reparse-raises', 'repack-raises', 'repack-bytes-differ', 'reparse-consumed-differs') for l, _, _ in V):
@@ -939,6 +993,8 @@ def run_key(key, seed, tier, corpus=()):
         out['greedy'] = out['greedy'] or r.get('greedy', False)
         if 'refusal' in r:
             out['refusals'] += 1
+        if r.get('nonzero_padding'):
+            out['nonzero_padding'] = out.get('nonzero_padding', 0) + 1
         if not r['viol']:
             out['laws_ok'] += 1
         for law, detail, text in r['viol']:
